@@ -11,7 +11,7 @@
 (*              metric labels: complete precedence tables for 3 nested spans.   *)
 (*  RandomSpec  (-simulate): random programs over 3 names, 2 values, 2 threads, *)
 (*              all parent modes, re-entry, out-of-order exit, all filters.     *)
-EXTENDS TracingLabels, Json
+EXTENDS TracingLabels, Json, Randomization
 
 CONSTANTS Names, Vals, Metrics,
           ScriptId,    \* which script (ScriptSpec)
@@ -86,14 +86,16 @@ EnabledKinds ==
            \cup (IF NSpans > 0 THEN {"rec"} ELSE {})
            \cup (IF NSpans > 0 /\ \E t \in Threads : Len(stack[t]) < MaxDepth THEN {"enter", "enter2"} ELSE {})
            \cup (IF \E t \in Threads : stack[t] # <<>> THEN {"exit"} ELSE {})
+\* a few label sequences drawn afresh for every step (the simulator computes ALL successors of a step)
+SomeSeqs == RandomSubset(10, LabelSeqsAnyOrder)
 MinThread == CHOOSE t \in Threads : \A u \in Threads : t <= u
 RandomNext ==
   /\ Len(prog) < SimLen
-  /\ \/ kind = "new"   /\ DoNew(Threads, {CtxParent, RootParent} \cup Spans, LabelSeqsAnyOrder)
+  /\ \/ kind = "new"   /\ DoNew(Threads, {CtxParent, RootParent} \cup Spans, SomeSeqs)
      \/ kind = "rec"   /\ DoRec(Threads, Spans)
      \/ kind \in {"enter", "enter2"} /\ DoEnter(Threads, Spans)
      \/ kind = "exit"  /\ DoExit(Threads)
-     \/ kind \in {"emit", "emit2"} /\ DoEmit(Threads, Metrics, LabelSeqsAnyOrder)
+     \/ kind \in {"emit", "emit2"} /\ DoEmit(Threads, Metrics, SomeSeqs)
      \/ kind = "final" /\ DoEmit({MinThread}, {1}, {<<>>})
   /\ kind' = IF Len(prog') = SimLen - 1 THEN "final" ELSE RandomElement(EnabledKinds')
 RandomSpec == SimInit /\ [][RandomNext]_svars
